@@ -460,6 +460,16 @@ func randomScenario(prop string, rng *rand.Rand) *prodScenario {
 		sc.SyncBatch = rng.Intn(4)
 		sc.Steer = nil
 	}
+	if prop == "C18" && rng.Intn(5) == 0 {
+		// the chain behind a SyncProducer; in half of these one partition that gets messages has no leader
+		sc.Sync = true
+		sc.SyncBatch = rng.Intn(2) * (1 + rng.Intn(3))
+		sc.Steer = nil
+		if rng.Intn(2) == 0 && len(sc.Msgs) > 0 {
+			ms := sc.Msgs[rng.Intn(len(sc.Msgs))]
+			sc.Leaderless = map[string]bool{fmt.Sprintf("%s/%d", ms.Topic, ms.Part): true}
+		}
+	}
 	if prop == "C18" {
 		n := 1 + rng.Intn(4)
 		kinds := []string{"count", "mutate", "mutate", "panic"}
